@@ -241,4 +241,17 @@ theorem all_markers_guarded :
     (∀ g ∈ guardTable, ∃ m ∈ markers, g.file = m.file ∧ g.func = m.func ∧ g.resource = m.resource ∧ g.mutex = m.mutex) := by
   decide
 
+open XV.Model.LockTable XV.Gen.LockSites in
+/-- Counting obligation: every modelled function still has at least the expected number of XMLMutexLock sites on
+the expected mutex and at least as many access markers of the resource.  Removing a lock TOGETHER WITH its marker
+(which leaves `all_markers_guarded` intact) breaks this theorem; adding locks or markers does not. -/
+theorem all_guarded_site_counts :
+    ∀ c ∈ siteCounts,
+      c.sites ≤ (lockSites.filter (fun s => s.file == c.file && s.func == c.func && s.mutex == c.mutex)).length ∧
+      c.sites ≤ (markers.filter (fun m => m.file == c.file && m.func == c.func && m.mutex == c.mutex &&
+                                          m.resource == c.resource && m.kind == "access")).length := by
+  decide
+
+example : XV.Model.LockTable.siteCounts.length = 17 := by decide
+
 end XV.Props.C17
